@@ -9,8 +9,8 @@ open Tromp.Ring
 namespace Driver
 
 structure RingSt where
-  a : Abs := Abs.init
-  h : Heap := Heap.init
+  a : Abs Nat := Abs.init
+  h : Heap Nat := Heap.init
   lists : List Nat := []      -- live list ids, ascending
   nodes : List Nat := []      -- node ids mentioned so far, ascending
 
@@ -33,13 +33,13 @@ def ringShow (s : RingSt) : String :=
   let linked := s.nodes.filter (fun x => isLinked (np x) s.h)
   String.join ls ++ "linked:" ++ String.join (linked.map (fun x => s!"{x},"))
 
-def ringApply (s : RingSt) (ops : List Op) : Option RingSt :=
+def ringApply (s : RingSt) (ops : List (Op Nat)) : Option RingSt :=
   ops.foldlM (fun (s : RingSt) op =>
     if s.a.legal op then some { s with a := s.a.step op, h := exec s.a s.h op } else none) s
 
 def ringStep (s : RingSt) (line : String) : RingSt × String :=
   let toks := (line.trimAscii.toString.splitOn " ").filter (· != "")
-  let run (s' : RingSt) (ops : List Op) : RingSt × String :=
+  let run (s' : RingSt) (ops : List (Op Nat)) : RingSt × String :=
     match ringApply s' ops with
     | some s'' => (s'', ringShow s'')
     | none => (s, "illegal")
